@@ -223,6 +223,7 @@ DESIGN_CFG = {
     "MCEq": ("MCEq", "INIT Init\nNEXT Next\nINVARIANT Laws\nCHECK_DEADLOCK FALSE\n", 16),
     "MCText": ("MCText", "SPECIFICATION Spec\nCONSTANT MaxLines = 3\nINVARIANT TypeOK Total CarrierAtEnd\nPROPERTY ErrSticks\nCHECK_DEADLOCK FALSE\n", 16),
     "MCJsonPatch": ("MCJsonPatch", "SPECIFICATION Spec\nINVARIANT MachineIsEval OnA NativeImpliesRfc\nCHECK_DEADLOCK FALSE\n", 16),
+    "MCReadPatch": ("MCReadPatch", "SPECIFICATION Spec\nINVARIANT MachineIsFunction NeverMorePermissive OwnOutput\nCHECK_DEADLOCK FALSE\n", 16),
     "MCMerge": ("MCMerge", "INIT Init\nNEXT Next\nINVARIANT C11 C12 C12Deviations\nCHECK_DEADLOCK FALSE\n", 16),
     "MCApi": ("MCApi", "SPECIFICATION ApiSpec\nCONSTANT MaxLen = 3\nINVARIANT Deterministic\nPROPERTY Pure\nCHECK_DEADLOCK FALSE\n", 8),
     "MCCli": ("MCCli", "SPECIFICATION Spec\nINVARIANT AgreesWithFunction ExitRange\nCHECK_DEADLOCK FALSE\n", 8),
@@ -242,7 +243,7 @@ CHECKS = {
     "C09": dict(stages=[Stage("jp", "TraceJP", plan_jp, table="pointer")], design=["MCJsonPatch"],
                 rule="session = one list-mode (a,b) over keys hostile to JSON Pointer: RenderPatch text parsed independently and "
                      "evaluated by the RFC 6902 machine on a and on every target the native diff applies to"),
-    "C10": dict(stages=[Stage("jp", "TraceJP", plan_jp, table="pointer", followup=followup_vary)], design=["MCJsonPatch"],
+    "C10": dict(stages=[Stage("jp", "TraceJP", plan_jp, table="pointer", followup=followup_vary)], design=["MCJsonPatch", "MCReadPatch"],
                 rule="session = one patch document (jd's own output, or a variation generated by the specification: shifted indices, "
                      "dropped hunks, dropped context tests, changed test/remove values, '-' appends) read by ReadPatchString and applied to targets"),
     "C11": dict(stages=[Stage("mg", "TraceMerge", plan_mg)], design=["MCMerge"],
